@@ -66,7 +66,7 @@ def validate(module, cfg, spec_dir, traces, *, batch=400, procs=None, depth_firs
         return i, _run_batch(module, cfg, spec_dir, traces, [i], True, module + "-diag", 1, depth_first, timeout)
 
     with ThreadPoolExecutor(max_workers=procs) as ex:
-        for i, res in ex.map(single, suspects[:64]):
+        for i, res in ex.map(single, suspects[:24]):
             vals = tlc.printed_values(res.out)
             if res.error:
                 out.model_errors.append((i, res.error, res.error_name, res.trace))
@@ -75,6 +75,6 @@ def validate(module, cfg, spec_dir, traces, *, batch=400, procs=None, depth_firs
                 continue
             at = [v[2] for v in vals if len(v) == 3 and v[0] == "AT"]
             out.rejected[i] = (max(at) - 1) if at else 0
-    for i in suspects[64:]:
+    for i in suspects[24:]:
         out.rejected[i] = -1
     return out
